@@ -48,6 +48,11 @@ def lockedSingle (f : Gen.LockedFact) (bits : Nat) (key : Bytes) (p : OProg (HRe
       if f.deferUnlock || f.inlineUnlock then Prog.out (.release s f.readLock)
       pure r
 
+/-- The end-of-get marker among the events. -/
+def isGetEndEv : OEv → Bool
+  | .resp (.getEnd _ _) => true
+  | _ => false
+
 /-- `Get` / `GetE`: one sub-request per key, each under that key's lock; the last one carries the
     terminator; stop at the first error. -/
 def lockedGetLoop (f : Gen.LockedFact) (bits : Nat) (sub : GetCmd → OProg (HRes Unit)) (g : GetCmd) :
@@ -60,10 +65,7 @@ def lockedGetLoop (f : Gen.LockedFact) (bits : Nat) (sub : GetCmd → OProg (HRe
     if f.usesLock then Prog.out (.acquire s f.readLock)
     -- the responder handed to the wrapped orchestrator holds the end-of-get marker back for
     -- every key but the last
-    let isGetEnd : OEv → Bool := fun e => match e with
-      | .resp (.getEnd _ _) => true
-      | _ => false
-    let r ← if f.gatesGetEnd && !last then Prog.filterEmit (fun e => !isGetEnd e) (sub subreq) else sub subreq
+    let r ← if f.gatesGetEnd && !last then Prog.filterEmit (fun e => !isGetEndEv e) (sub subreq) else sub subreq
     if isCrash r then pure r
     else if isPanic r then
       if f.usesLock && (f.deferUnlock || (f.recovers && f.recoverUnlocks)) then Prog.out (.release s f.readLock)
